@@ -3,6 +3,7 @@ package codec
 import (
 	"fmt"
 	"net/url"
+	"sort"
 	"strings"
 
 	"github.com/iancoleman/strcase"
@@ -50,7 +51,16 @@ func (c *Codec) decodeQuery(queryString url.Values, msg protoreflect.Message) er
 		return err
 	}
 
-	for key, values := range queryString {
+	// parameters may address the same container ("o" and "o.a"): apply them
+	// in a fixed order so the outcome does not depend on map iteration
+	keys := make([]string, 0, len(queryString))
+	for key := range queryString {
+		keys = append(keys, key)
+	}
+	sort.Strings(keys)
+
+	for _, key := range keys {
+		values := queryString[key]
 		if len(values) == 0 {
 			return status.Error(codes.InvalidArgument, fmt.Sprintf("no value provided for query parameter %q", key))
 		}
